@@ -9,14 +9,19 @@ ops (token syntax in Driver/FwShared.lean):
   drop <peer> <in|out> <packet…6>                   -> pass|remote|peer|local|norule  Firewall.Drop
   clear                                             -> ok          forget all tracked flows
   sleep <ns>                                        -> ok
+  ipkt …                                            -> <tun> <udp> <pend>   consumeInsidePacket around this firewall (Driver/Inside.lean)
 -/
 import Nebula.Driver.FwShared
+import Nebula.Driver.Inside
 
 namespace Nebula.Driver.Fwrules
 open Nebula.Driver Nebula.Driver.Fw Nebula.Net Nebula.Fw
 
 def step (s : St) (args : List String) (impl : String) : St × Out :=
   match stepSetup s args impl with
+  | some r => r
+  | none =>
+  match Nebula.Driver.Inside.stepInside s args impl with
   | some r => r
   | none =>
   match args with
